@@ -59,7 +59,7 @@ def run(prog, chk):
                     chk.ob("R1.entry-guard", f.qual, bool(deleg), f.loc, "only delegates to %s" % [dotted(c.func) for n in deleg for c in node_calls(n) if dotted(c.func)][:2])
             else:
                 es = [n for (n, c) in fl.nodes_with_call(name="self.ensure_session")]
-                ok = len(es) >= 1 and fl.dominated(uses + deleg, guard_nodes=es) and bool(uses + deleg)
+                ok = len(es) >= 1 and fl.dominated(uses + deleg, guard_nodes=es, complete=True) and bool(uses + deleg)
                 n_guarded += 1
                 chk.ob("R1.entry-guard", f.qual, ok, f.loc, "ensure_session() precedes every use of the auth handler")
     chk.floor("R1", "guarded auth entry points", n_guarded, 12)
@@ -93,7 +93,7 @@ def run(prog, chk):
     auths = [n for (n, c) in fl.nodes_with_call() if dotted(c.func) in ("self." + m for m in AUTH_METHODS)]
     sc = [n for (n, c) in fl.nodes_with_call(name="self.start_client")]
     chk.floor("R3", "auth calls in Transport.connect", len(auths), 2)
-    ok = len(sc) == 1 and fl.dominated(auths, guard_nodes=sc)
+    ok = len(sc) == 1 and fl.dominated(auths, guard_nodes=sc, complete=True)
     chk.ob("R3.kex-before-auth", "Transport.connect", ok, tc.loc, "start_client() dominates every auth call")
     nm = fl.nodes(lambda n: n.kind == "cond" and unparse(n.ast) in ("key.get_name() != hostkey.get_name()", "hostkey.get_name() != key.get_name()"))
     by = fl.nodes(lambda n: n.kind == "cond" and unparse(n.ast) in ("key.asbytes() != hostkey.asbytes()", "hostkey.asbytes() != key.asbytes()",
@@ -106,7 +106,7 @@ def run(prog, chk):
         ok = ok and not any(a.id in r for a in auths) and fl.cfg.exit.id not in r
         kd = fl.defs("key", by[0])
         ok = ok and all(rhs is not None and unparse(rhs) == "self.get_remote_server_key()" for (d, rhs) in kd) and bool(kd)
-        ok = ok and fl.dominated(by, guard_nodes=sc)
+        ok = ok and fl.dominated(by, guard_nodes=sc, complete=True)
     if ok and nm:
         ok = fl.dominated(auths, guard_edge=lambda s, lab, d: s == nm[0].id and lab == "F")
     chk.ob("R3.hostkey-compared", "Transport.connect", ok, tc.loc,
@@ -123,11 +123,11 @@ def run(prog, chk):
                                  "our_server_keys is not None": (not known)})
         auths = [n for (n, c) in fl.nodes_with_call() if dotted(c.func) in ("self._auth", "auth_strategy.authenticate")]
         sc = [n for (n, c) in fl.nodes_with_call(name="t.start_client")]
-        ok = len(auths) == 2 and len(sc) == 1 and fl.dominated(auths, guard_nodes=sc)
+        ok = len(auths) == 2 and len(sc) == 1 and fl.dominated(auths, guard_nodes=sc, complete=True)
         # our_server_keys must not be reassigned after the start_client (the flag fixed above is about its final value)
         if known:
             pol = [n for (n, c) in fl.nodes_with_call(name="self._policy.missing_host_key")]
-            ok = ok and len(pol) == 1 and fl.dominated(auths, guard_nodes=pol) and fl.dominated(pol, guard_nodes=sc)
+            ok = ok and len(pol) == 1 and fl.dominated(auths, guard_nodes=pol, complete=True) and fl.dominated(pol, guard_nodes=sc, complete=True)
             if ok:
                 c = [c for c in node_calls(pol[0]) if M.is_call(c, attr="missing_host_key")][0]
                 kd = fl.expand_text(c.args[2], pol[0], depth=1) if len(c.args) == 3 else []
